@@ -13,9 +13,10 @@ needs = sys.argv[sys.argv.index("--needs") + 1] if "--needs" in sys.argv else ""
 extra = sys.argv[sys.argv.index("--also") + 1].split(",") if "--also" in sys.argv else []
 rev = sys.argv[sys.argv.index("--rev") + 1] if "--rev" in sys.argv else "HEAD"
 note = sys.argv[sys.argv.index("--note") + 1] if "--note" in sys.argv else ""
-src = f"/tmp/wt-{prop}"
+src = sys.argv[sys.argv.index("--src") + 1] if "--src" in sys.argv else f"/tmp/wt-{prop}"
+name = sys.argv[sys.argv.index("--name") + 1] if "--name" in sys.argv else f"{prop}-{letter}"
 patch, demo = f"{src}/patch{letter}.diff", f"{src}/demo{letter}.py"
-out = os.path.join(V, "seeded", f"{prop}-{letter}")
+out = os.path.join(V, "seeded", name)
 os.makedirs(out, exist_ok=True)
 shutil.copy(patch, os.path.join(out, "patch.diff"))
 shutil.copy(demo, os.path.join(out, "demo.py"))
